@@ -304,6 +304,16 @@ def immutable_filter(src_array: np.ndarray) -> np.ndarray:
         return dst_array
     return src_array # keep it as is
 
+def immutable_new(array: np.ndarray) -> np.ndarray:
+    '''Set a newly created array to immutable, together with the newly created buffer it might be a view of (as returned by NumPy functions that end with a reshape): otherwise the writeable buffer remains available through ``ndarray.base``. Only for arrays created by the caller.
+    '''
+    array.flags.writeable = False
+    base = array.base
+    while base.__class__ is np.ndarray and base.flags.writeable:
+        base.flags.writeable = False
+        base = base.base
+    return array
+
 def name_filter(name: NameType) -> NameType:
     '''
     For name attributes on containers, only permit recursively hashable objects.
@@ -1819,8 +1829,7 @@ def _ufunc_set_2d(
         # let the function flatten the array, then reshape into 2D
         post = func(array, other, **func_kwargs)  # type: ignore
         post = post.reshape(len(post), width)
-        post.flags.writeable = False
-        return post
+        return immutable_new(post)
 
     # this approach based on https://stackoverflow.com/questions/9269681/intersection-of-2d-numpy-ndarrays
     # we can use a the 1D function on the rows, once converted to a structured array
@@ -1830,8 +1839,7 @@ def _ufunc_set_2d(
     array_view = array.view(dtype_view)
     other_view = other.view(dtype_view)
     post = func(array_view, other_view, **func_kwargs).view(dtype).reshape(-1, width) # type: ignore
-    post.flags.writeable = False
-    return post
+    return immutable_new(post)
 
 def union1d(array: np.ndarray,
         other: np.ndarray,
@@ -2008,9 +2016,7 @@ def isin_array(*,
     func = np.in1d if array.ndim == 1 else np.isin
 
     result = func(array, other, assume_unique=assume_unique) #type: ignore
-    result.flags.writeable = False
-
-    return result
+    return immutable_new(result) # np.isin returns a view of a 1D buffer
 
 
 def isin(
